@@ -15,6 +15,8 @@ PARAMS = {
     # true cofactors (found by search; the constructor's SEC 1 cofactor formula needs p > 64 to agree with h = 4)
     "ec67_19h4": (67, 1, 5, (5, 1), 19, 4),
     "ec67_29h2": (67, 1, 7, (2, 33), 29, 2),
+    # the order needs one octet more than the field (n_size = 2, p_size = 1), as on secp160k1/r1/r2 and secp224k1; p = 3 mod 4
+    "ec251_257": (251, 1, 16, (0, 4), 257, 1),
 }
 _CACHE = {}
 
